@@ -23,6 +23,11 @@ func sample(units []*rt.Unit, rng *rand.Rand, keep func(*rt.Unit) bool, frac flo
 
 func init() {
 	families["C05"] = &rt.Family{Prop: "C05", JudgeBuild: true, Module: "MC_C05", PackSize: 8,
+		// same-named types (of two documents, or of one document) that differ only in their bounds
+		More: []rt.Extra{{Module: "MC_C10", ExtraCfg: tierCfg, Keep: func(u *rt.Unit) bool {
+			k := u.Str("kind")
+			return twoDocs(u) && (k == "int" || k == "int2" || k == "num" || k == "nummult")
+		}}},
 		Unbounded: []rt.ApaCheck{
 			{Module: "BoundsInd", Inv: "Agree", Expect: "NoError", What: "for ALL integers: the transcribed NormalizeBounds + genBoundary accept x iff x satisfies every stated bound"},
 			{Module: "BoundsInd", Inv: "AgreeTie", Expect: "Error", What: "the comparison before fix ee8f4ce (> / < instead of >= / <=) disagrees on a tie: the deviation switch is necessary"},
@@ -43,6 +48,11 @@ func init() {
 
 func init() {
 	families["C06"] = &rt.Family{Prop: "C06", JudgeBuild: true, Module: "MC_C06", PackSize: 8,
+		// same-named types (of two documents, or of one document) that differ only in their string constraints
+		More: []rt.Extra{{Module: "MC_C10", ExtraCfg: tierCfg, Keep: func(u *rt.Unit) bool {
+			k := u.Str("kind")
+			return twoDocs(u) && (k == "str" || k == "str2")
+		}}},
 		Rule: "units = minLength {absent,0,1,2} x maxLength {absent,0,1,2,3} x pattern {absent + 4 patterns} x 7 positions; documents = every string over a 5-character alphabet (1,1,2,3,4 UTF-8 bytes) up to length 3 (quick) / 4 (thorough), absent, null. distinct_nontrivial = distinct (unit, document) pairs with a definite reference verdict",
 		ExtraCfg: func(tier string) string {
 			if tier == "thorough" {
@@ -103,6 +113,11 @@ func init() {
 
 func init() {
 	families["C08"] = &rt.Family{Prop: "C08", JudgeBuild: true, Module: "MC_C08", PackSize: 1, Judge: "value", Consts: true,
+		// same-named enum types (of two documents, or of one document) that differ only in their value lists
+		More: []rt.Extra{{Module: "MC_C10", ExtraCfg: tierCfg, Keep: func(u *rt.Unit) bool {
+			k := u.Str("kind")
+			return twoDocs(u) && (k == "enums" || k == "enums2" || k == "enumn" || k == "enumn2" || k == "enumu")
+		}}},
 		Rule: "units = every ordered list of up to 3 distinct atoms of {\"a\",\"bé\",1,2,1.5,true,false,null} conforming to the declared type (absent, string, integer, number, boolean, null, [string,null]) x 5 uses (required, optional, via $ref, array items, optional with default); documents = the 8 atoms, 4 non-members of different JSON types, absent. Judged: verdict, decoded value and re-marshalled value (bare JSON value), and the typed string constants read from the emitted source. distinct_nontrivial = distinct (unit, document) pairs with a definite reference verdict"}
 }
 
